@@ -15,6 +15,48 @@ pub fn monitor(out: &RunOut) -> MonOut {
             m.viol(p, "R1", format!("{}|{}", pi.location, pi.msg.chars().take(40).collect::<String>().replace(' ', "_")), format!("panic: {} at {}", pi.msg, pi.location));
         }
     }
+    // requests built directly with the client's builder: update check + event on one app
+    for r in h.iter() {
+        if let Kind::MockDirect { apps, doc, parses, cfg, failure } = &r.kind {
+            m.count("R1.direct_mixed_requests");
+            let site = "direct-mixed";
+            if let Some(f) = failure {
+                m.viol(p, "R1", format!("mock|direct|{}", f.chars().take(60).collect::<String>().replace(' ', "_")), format!("the mock server failed on a request with update check and event on the same app: {f}"));
+                continue;
+            }
+            let doc = match doc {
+                Some(d) => d,
+                None => {
+                    m.viol(p, "R1", site, "the mock's answer to a mixed request is not JSON".to_string());
+                    continue;
+                }
+            };
+            let dapps = doc_apps(doc);
+            let got: Vec<String> = dapps.iter().filter_map(|a| str_field(a, "appid")).collect();
+            let want: Vec<String> = apps.iter().map(|a| a.0.clone()).collect();
+            if got != want {
+                m.viol(p, "R1", site, format!("answer lists apps {:?}, request listed {:?}", got, want));
+                continue;
+            }
+            let any_invalid = want.iter().any(|id| cfg.get(id).map(|k| k == "InvalidResponse").unwrap_or(false));
+            if *parses == any_invalid {
+                m.viol(p, "R1", site, format!("client parser accepts={parses} but configured decisions are {:?}", cfg));
+            }
+            for a in &dapps {
+                let id = str_field(a, "appid").unwrap_or_default();
+                let k = cfg.get(&id).cloned().unwrap_or_default();
+                let st = a.get("updatecheck").and_then(|u| u.get("status")).and_then(|s| s.as_str());
+                let want = match k.as_str() {
+                    "NoUpdate" => Some("noupdate"),
+                    "Update" | "UrgentUpdate" | "InvalidURL" => Some("ok"),
+                    _ => None,
+                };
+                if st != want {
+                    m.viol(p, "R4", site, format!("app {id} asked for an update check (and reported an event): answered updatecheck status {:?}, configured decision {k}", st));
+                }
+            }
+        }
+    }
     for l in seg::lives(h) {
         if !l.started {
             continue;
